@@ -8,5 +8,4 @@ pub mod sym;
 pub mod stubs;
 pub mod c12;
 pub mod c13;
-pub mod c11;
 pub mod c10;
